@@ -18,6 +18,7 @@ EXPLANATION = (
     "entry compared with the map; the SCU and SCP finality tests are shown to read those two "
     "sources. Exhaustive over a finite space."
     " Third session: (docs-agreement) every status code the service-class documentation lists for a service is a key of the table that service's SCP consults (implementation-specific ranges excluded); (category-use) borrowed from C22's classification rule: the Get / Move SCP files a sub-operation's status under the counter of its category; (scp-finality) borrowed from C20."
+    " Fifth round: (category-use) borrows C22's evaluated classification; the SCU-side category must come from `code_to_category` (tuple unpacking followed); the status tables are not written at run time."
 )
 
 
@@ -294,6 +295,7 @@ def _delegate_scp_finality(repo, rep, tier):
     rep.rule("scp-finality", "in every SCP a response whose category is not Pending is the last one for its request, and every request gets one (C20's after-final / no-final rules)")
     rep.rule("category-use", "a sub-operation's result is tallied by the category its status has in the storage table (C22's classification rule)")
     delegate(repo, rep, tier, "C22", ("classification",), "category-use", "the Get / Move SCP files a status under a counter that does not match its category (a Cancel or Pending answer counted as completed): the final response then reports Success for a retrieval that did not complete")
+    delegate(repo, rep, tier, "C21", ("n-reply",), "category-use", "a DIMSE-N SCP decides by something other than the category of the status whether the (single, final) response carries the handler's data set: only Success and Warning responses have one - a Cancel / Pending / Failure / unknown status with a data set attached, or a Warning without, contradicts the table the requestor's SCU reads the response by")
     delegate(repo, rep, tier, "C20", ("after-final", "no-final"), "scp-finality", "the SCP's decision that a response is (not) final does not follow the category of its status: a Warning / Failure / Cancel / Success status is followed by another response, or a request is left without a final one")
 
 
